@@ -44,10 +44,36 @@ def Term.symOk : Term → Bool
      | .exists_, .qvars vs => vs.all (fun v => v.params.isEmpty)
      | _, _ => true)
 
+theorem fv_node (op : Op) (args : List Term) (p : Payload) : (Term.node op args p).fv =
+    (match op, p with
+    | .symbol, .sym s => [s]
+    | .function, .sym s => s :: (args.map Term.fv).flatten
+    | .forall_, .qvars vs => ((args.map Term.fv).flatten).filter (fun x => !vs.contains x)
+    | .exists_, .qvars vs => ((args.map Term.fv).flatten).filter (fun x => !vs.contains x)
+    | _, _ => (args.map Term.fv).flatten) := by
+  rw [Term.fv.eq_def]; rfl
+
+theorem fnames_node (op : Op) (args : List Term) (p : Payload) : (Term.node op args p).fnames =
+    (match op, p with
+    | .symbol, .sym _ => []
+    | .function, .sym s => s :: (args.map Term.fnames).flatten
+    | _, _ => (args.map Term.fnames).flatten) := by
+  rw [Term.fnames.eq_def]
+
+theorem symOk_node (op : Op) (args : List Term) (p : Payload) : (Term.node op args p).symOk =
+    ((args.map Term.symOk).all id &&
+    (match op, p with
+     | .symbol, _ => args.isEmpty
+     | .function, .sym s => !s.params.isEmpty
+     | .forall_, .qvars vs => vs.all (fun v => v.params.isEmpty)
+     | .exists_, .qvars vs => vs.all (fun v => v.params.isEmpty)
+     | _, _ => true)) := by
+  rw [Term.symOk.eq_def]
+
 theorem Term.symOk_child {op args p} (h : (Term.node op args p).symOk = true) :
     ∀ a ∈ args, a.symOk = true := by
   intro a ha
-  rw [Term.symOk.eq_def] at h
+  rw [symOk_node] at h
   simp only [Bool.and_eq_true, List.all_eq_true, List.mem_map] at h
   exact h.1 _ ⟨a, ha, rfl⟩
 
@@ -70,7 +96,7 @@ theorem fv_exists (args : List Term) (vs : List Sym) :
 theorem fv_node_plain (op : Op) (args : List Term) (p : Payload)
     (h1 : op ≠ .symbol) (h2 : op ≠ .function) (h3 : op.isQuantifier = false) :
     (Term.node op args p).fv = (args.map Term.fv).flatten := by
-  rw [Term.fv.eq_def]
+  rw [fv_node]
   split <;> simp_all [Op.isQuantifier]
 
 /-- every free symbol of a child is free in the node, unless the node is a quantifier binding it
@@ -82,16 +108,16 @@ theorem mem_fv_child (op : Op) (args : List Term) (p : Payload) (a : Term) (ha :
   have hsub : s ∈ (args.map Term.fv).flatten := by
     simp only [List.mem_flatten, List.mem_map]
     exact ⟨a.fv, ⟨a, ha, rfl⟩, hs⟩
-  rw [Term.fv.eq_def]
+  rw [fv_node]
   split
   · exact absurd rfl hsym
   · exact List.mem_cons_of_mem _ hsub
   · next vs =>
     have := hq vs rfl rfl
-    simp [hsub, this]
+    exact List.mem_filter.mpr ⟨hsub, by simp [this]⟩
   · next vs =>
     have := hq vs rfl rfl
-    simp [hsub, this]
+    exact List.mem_filter.mpr ⟨hsub, by simp [this]⟩
   · exact hsub
 
 theorem mem_fnames_child (op : Op) (args : List Term) (p : Payload) (a : Term) (ha : a ∈ args) (s : Sym)
@@ -99,7 +125,7 @@ theorem mem_fnames_child (op : Op) (args : List Term) (p : Payload) (a : Term) (
   have hsub : s ∈ (args.map Term.fnames).flatten := by
     simp only [List.mem_flatten, List.mem_map]
     exact ⟨a.fnames, ⟨a, ha, rfl⟩, hs⟩
-  rw [Term.fnames.eq_def]
+  rw [fnames_node]
   split
   · exact absurd rfl hsym
   · exact List.mem_cons_of_mem _ hsub
@@ -115,12 +141,12 @@ theorem fnames_params : (t : Term) → t.symOk = true → ∀ s ∈ t.fnames, s.
       simp only [List.mem_flatten, List.mem_map] at hm
       obtain ⟨l, ⟨a, ha, rfl⟩, hsl⟩ := hm
       exact ih a ha s hsl
-    rw [Term.fnames.eq_def] at hs
+    rw [fnames_node] at hs
     split at hs
     · simp at hs
     · next f =>
       rcases List.mem_cons.mp hs with rfl | hm
-      · simp only [Term.symOk, Bool.and_eq_true] at h
+      · rw [symOk_node] at h; simp only [Bool.and_eq_true] at h
         have := h.2
         simp only [Bool.not_eq_true', List.isEmpty_eq_false_iff] at this
         exact this
@@ -135,11 +161,11 @@ theorem fnames_subset_fv : (t : Term) → t.symOk = true → ∀ s ∈ t.fnames,
     have ih : ∀ a ∈ args, ∀ s ∈ a.fnames, s ∈ a.fv := fun a ha => fnames_subset_fv a (hch a ha)
     by_cases hsym : op = .symbol
     · subst hsym
-      simp only [Term.symOk, Bool.and_eq_true, List.isEmpty_iff] at h
+      rw [symOk_node] at h; simp only [Bool.and_eq_true, List.isEmpty_iff] at h
       have hnil := h.2
       subst hnil
-      rw [Term.fnames.eq_def] at hs
-      split at hs <;> simp at hs
+      rw [fnames_node] at hs
+      split at hs <;> simp_all
     · have hsub : s ∈ (args.map Term.fnames).flatten → s ∈ (Term.node op args p).fv := by
         intro hm
         simp only [List.mem_flatten, List.mem_map] at hm
@@ -149,12 +175,12 @@ theorem fnames_subset_fv : (t : Term) → t.symOk = true → ∀ s ∈ t.fnames,
         subst hp
         have : vs.all (fun v => v.params.isEmpty) = true := by
           cases op <;> simp [Op.isQuantifier] at hq
-          · simp only [Term.symOk, Bool.and_eq_true] at h; exact h.2
-          · simp only [Term.symOk, Bool.and_eq_true] at h; exact h.2
+          · rw [symOk_node] at h; simp only [Bool.and_eq_true] at h; exact h.2
+          · rw [symOk_node] at h; simp only [Bool.and_eq_true] at h; exact h.2
         have := List.all_eq_true.mp this s hmem
         simp only [List.isEmpty_iff] at this
         exact hpar this
-      rw [Term.fnames.eq_def] at hs
+      rw [fnames_node] at hs
       split at hs
       · simp at hs
       · next f =>
